@@ -193,6 +193,20 @@ pub fn c09_worker(args: &Args, w: &Worker) -> i32 {
             }
         }
     }
+    // larger searches: every stop poll and every clock check as a cut point (fork checkpointing)
+    for p in P9.iter().take(if thorough { 12 } else { 4 }) {
+        let Ok((_, pos, _)) = searchrun::open(p.fen, &spos::hist(p)) else { continue };
+        let legal = searchrun::legal_uci(&pos);
+        if legal.is_empty() {
+            continue;
+        }
+        let depth: u128 = if thorough { 4 } else { 3 };
+        let stride = if thorough { 1 } else { 2 };
+        let stop_case = case_for(p, &Limits { depth: Some(depth), ..Default::default() }, Cut::ClockNever);
+        fork_sweep(w, p, &stop_case, false, stride, "stop_points", &|o| judge_go(o, &legal));
+        let clock_case = case_for(p, &Limits { depth: Some(depth), wtime: Some(1000), btime: Some(1000), ..Default::default() }, Cut::ClockNever);
+        fork_sweep(w, p, &clock_case, true, stride, "clock_points", &|o| judge_go(o, &legal));
+    }
     // whole games with the cache kept across positions
     selfplay(w, &args.tier, &mut idx, &|w, c, pos, out, ply| {
         w.count("searches", 1);
@@ -206,6 +220,48 @@ pub fn c09_worker(args: &Args, w: &Worker) -> i32 {
         }
     });
     w.done()
+}
+
+/// Fork sweep (see cutprops): every flag poll (stop) or limit check (clock expiry) of one larger
+/// search becomes a cut point; `bad` judges the interrupted execution in the child.
+pub fn fork_sweep(w: &Worker, p: &SPos, case: &Case, at_clock: bool, stride: u64, label: &str, bad: &dyn Fn(&Out) -> Option<String>) {
+    let Ok((board, _, _)) = searchrun::open(p.fen, &spos::hist(p)) else { return };
+    let opts = Opts { clear_cache: true, observe: false, neutral: false };
+    let base = searchrun::run(&board, case, &opts);
+    let k_max = if at_clock { base.clock_calls } else { base.running_calls };
+    if base.panicked.is_some() || k_max == 0 {
+        return;
+    }
+    let per = k_max.div_ceil(w.nshards as u64);
+    let lo = 1 + per * w.shard as u64;
+    let hi = (lo + per - 1).min(k_max);
+    if lo > hi {
+        return;
+    }
+    crate::rce_verif::fork_at_clock(at_clock);
+    crate::rce_verif::fork_stride(stride, 0);
+    crate::rce_verif::fork_range(lo, hi);
+    let out = searchrun::run_within(&board, case, &opts, std::time::Duration::from_secs(3 * 3600));
+    if crate::rce_verif::fork_child().is_some() {
+        crate::rce_verif::fork_exit(i32::from(bad(&out).is_some()));
+    }
+    let (done, failed) = crate::rce_verif::fork_results();
+    crate::rce_verif::fork_range(0, 0);
+    crate::rce_verif::fork_at_clock(false);
+    crate::rce_verif::fork_stride(1, 0);
+    w.count("searches", done);
+    w.count(&format!("{label}_by_fork"), done);
+    let expected = (lo..=hi).filter(|n| n % stride == 0).count() as u64;
+    if failed.is_empty() && (crate::rce_verif::fork_errors() > 0 || done != expected) {
+        w.info("machinery", &format!("fork sweep of {} incomplete: {done} of {expected} children ran", p.fen));
+    }
+    for k in failed.into_iter().take(5) {
+        let mut c = case.clone();
+        c.cut = if at_clock { Cut::ClockAt(k) } else { Cut::StopAt(k) };
+        let again = searchrun::run(&board, &c, &opts);
+        let why = bad(&again).unwrap_or_else(|| "the forked child reported a violation that the re-execution does not show".into());
+        w.violation(&format!("{}|fork", c.sig()), &format!("'{}' on {} cut at {} {k}/{k_max}: {why}", c.limits.go_line(), p.fen, if at_clock { "limit check" } else { "flag poll" }), &c.json());
+    }
 }
 
 /// Game sessions: the engine plays against itself from a start position, one `go depth d` per
